@@ -21,6 +21,16 @@ func (x *xtr) co(n ast.Node, v xval, ty *xty) string {
 		if ty.k == kAny {
 			return "Go.Any.nil"
 		}
+		if ty.k == kErrOpt {
+			return "none"
+		}
+	case kErr:
+		if ty.k == kErrOpt {
+			return "some " + paren(v.s)
+		}
+		if sameTy(v.ty, ty) {
+			return v.s
+		}
 	case kConst:
 		switch ty.k {
 		case kInt:
@@ -233,6 +243,17 @@ func (x *xtr) binary(t *ast.BinaryExpr) xval {
 			}
 			return xval{s: "!List.isEmpty " + paren(o.s), ty: tBoolx}
 		}
+		if o.ty.k == kAny || o.ty.k == kErrOpt {
+			// an interface value / a named error result compared with nil
+			fn := map[xkind]string{kAny: "Go.Any.isNil ", kErrOpt: "Option.isNone "}[o.ty.k]
+			if o.ty.k == kAny {
+				x.usesRtX = true
+			}
+			if t.Op == token.EQL {
+				return xval{s: fn + paren(o.s), ty: tBoolx}
+			}
+			return xval{s: "!" + fn + paren(o.s), ty: tBoolx}
+		}
 		x.bad(t, "comparison of %s with nil (an error is tested only right after the call that returned it)", o.ty.lean())
 	}
 	ty := a.ty
@@ -335,10 +356,23 @@ func (x *xtr) format(c *ast.CallExpr) string {
 			x.bad(c, "format with too few arguments")
 		}
 		v := x.expr(c.Args[arg])
-		if v.ty.k != kStr && v.ty.k != kErr {
+		switch {
+		case v.ty.k == kStr || v.ty.k == kErr:
+			parts = append(parts, paren(v.s))
+		case v.ty.k == kErrOpt:
+			// a named error result that may be nil: fmt prints a nil error as <nil> / %!w(<nil>) / %!s(<nil>)
+			nilText := map[byte]string{'v': "<nil>", 'w': "%!w(<nil>)", 's': "%!s(<nil>)"}[f[i+1]]
+			x.usesRtX = true
+			parts = append(parts, fmt.Sprintf("Go.fmtErr %s %s", leanString(x, c, nilText), paren(v.s)))
+		case v.ty.k == kAny && f[i+1] == 'v':
+			// the text of an arbitrary interface value is not modelled: the abstract parameter fmtAny
+			if !x.prims["fmtAny"] {
+				x.bad(c.Args[arg], "%%v of an interface value needs the parameter fmtAny (spec.Prims)")
+			}
+			parts = append(parts, "fmtAny "+paren(v.s))
+		default:
 			x.bad(c.Args[arg], "format argument of type %s", v.ty.lean())
 		}
-		parts = append(parts, paren(v.s))
 		arg++
 		f = f[i+2:]
 	}
